@@ -8,7 +8,7 @@
    well-formed, provided the expressions handed in are well-formed themselves - so no sequence of those calls
    can produce a value that makes the renderer panic (C20_reachable_no_panic). *)
 From Coq Require Import String List ZArith.
-From QRB Require Import Base.Bytes Model.W Model.Values Model.Compile Model.WModes Model.Wfe Model.CompileFacts Model.Api Model.ApiFacts Model.Ctor Model.CtorFacts.
+From QRB Require Import Base.Bytes Model.W Model.Values Model.Compile Model.WModes Model.Wfe Model.CompileFacts Model.Handle Model.Api Model.ApiFacts Model.Ctor Model.CtorFacts.
 Import ListNotations.
 
 Section C20.
@@ -51,6 +51,13 @@ Section C20.
       lookup_h V key (exp_meth_handlers recv) args = Some r -> hwf V r = true.
   Proof. exact (meth_wfe V). Qed.
 
+  (* the closure of all of it: a value built by any nesting of modelled constructors, expression methods, entry points,
+     statement-builder and WITH-builder methods - every expression argument being built the same way, hence never a nil
+     interface - renders without panic under every option combination and supplied map *)
+  Theorem C20_built_no_panic :
+    forall o sup (e : exp V), built V e -> to_sql validI validT o sup (compile_top e) <> RPanic.
+  Proof. intros o sup e H. apply C20_no_panic. exact (built_wfe V e H). Qed.
+
   (* ... hence every statement reachable through the modelled API renders without a panic, under every
      option combination and supplied map, whatever the length of the call chain *)
   Theorem C20_reachable_no_panic :
@@ -91,7 +98,28 @@ Proof.
   eapply (rw_entry nat "With" [AStr "r"]). vm_compute. reflexivity.
 Qed.
 
+(* non-vacuity of [built]: Select(N("a").Eq(Arg(7))).From(N("t")) in four levels *)
+Example C20_built_example :
+  let a := set_self (EIdent (@ENil nat) "a") in
+  let t := set_self (EIdent (@ENil nat) "t") in
+  let cond := EBase (EOp (EIdent ENil "a") "=" (EArg 7) false) in
+  built nat (ESelect [] [] (p_set_from nat (p_set_list nat (empty_parts nat) [(cond, "")]) [mkFromItem false false t "" []])).
+Proof.
+  intros a t cond. exists 4.
+  assert (Ha : fst (builtn nat 1) a) by (apply (bn_ctor nat 0 "N" [AStr "a"]); [apply Forall_cons; [exact I|apply Forall_nil]|reflexivity]).
+  assert (Ht : fst (builtn nat 1) t) by (apply (bn_ctor nat 0 "N" [AStr "t"]); [apply Forall_cons; [exact I|apply Forall_nil]|reflexivity]).
+  assert (H7 : fst (builtn nat 1) (EBase (EArg 7))) by (apply (bn_ctor nat 0 "Arg" [AAny 7]); [apply Forall_cons; [exact I|apply Forall_nil]|reflexivity]).
+  assert (Hc : fst (builtn nat 2) cond).
+  { apply (bn_meth nat 1 "ExpBase.Eq" a [AExp (EBase (EArg 7))]); [exact Ha|apply Forall_cons; [exact H7|apply Forall_nil]|reflexivity]. }
+  assert (Hs : fst (builtn nat 3) (ESelect [] [] (p_set_list nat (empty_parts nat) [(cond, "")]))).
+  { apply (bn_entry nat 2 "Select" [AExps [cond]]); [apply Forall_cons; [apply Forall_cons; [exact Hc|apply Forall_nil]|apply Forall_nil]|reflexivity]. }
+  apply (bn_step nat 3 "SelectSelectBuilder" "From" (ESelect [] [] (p_set_list nat (empty_parts nat) [(cond, "")])) [AExp t]);
+    [exact Hs|apply Forall_cons; [apply (bn_mono nat 1 3); [repeat constructor|exact Ht]|apply Forall_nil]|intro E; vm_compute in E; discriminate|reflexivity].
+Qed.
+
 Print Assumptions C20_no_panic.
+Print Assumptions C20_built_no_panic.
+Print Assumptions C20_built_example.
 Print Assumptions C20_constructor_preserves_wf.
 Print Assumptions C20_method_preserves_wf.
 Print Assumptions C20_reachable_with_example.
